@@ -96,20 +96,23 @@ def standard(tier, snapshots_cost=1.0):
     """the default mix used by the per-step monitors (C01, C02, C04, C09, C18):
     quick  : U(3,<=4) x s x T{id,rev} x 11 rules, U(3,5) x s x 11 rules; U(3,<=4) x s x every second entry of the option menus (thorough: all);
              U(3,<=4) x withdrawn subsets x 11 rules; x undeclared subsets x mpls(+wigm-prf); withdrawn x undeclared (overlapping) subsets x mpls; U(2,<=8);
-             W(4,2,3,{1,2}) x s in {2,3} x 11 rules (4 candidates: qpq restarts, 2-step transfers);
+             W(4,2,3,{1,2}) x s in {2,3} x 11 rules + wigm defeat_batch=zero (4 candidates: qpq restarts, 2-step transfers);
+             five-candidate bullets+pair profiles BPS(5) x s in {3,4} for the batch rules (a winner elected by transfer next to sure losers);
              the repository's own test ballot files (test/blt/**.blt: real elections of 5-13 candidates; quick: the small ones + M135 + one Glasgow ward);
              bullet piles BU(4) of sizes {0,1,2,3,5,8,13} x s in {1,2,3} (exhausting surpluses, tied tails)
     thorough adds U(3,6..7), weighted W spaces with 4 and 5 candidates, U(4,4) for five fast rules,
              equal-rank profiles Q(3,<=4) for meek/warren"""
     D = configs.DEFAULTS
     menus = configs.wigm_menu() + configs.meek_menu()
+    ZB = [{'rule': 'wigm', 'defeat_batch': 'zero'}, {'rule': 'wigm', 'defeat_batch': 'zero', 'arithmetic': 'fixed', 'precision': 3}]
     yield from seats_ties(2, spaces.U(2, 0, 8), cfgs=D)
     yield from seats_ties(3, spaces.U(3, 0, 4), cfgs=D)
     yield from seats_ties(3, spaces.U(3, 0, 4), ties='id', cfgs=menus if tier == 'thorough' else menus[::2])
     yield from withdrawn_family(3, spaces.U(3, 0, 4), D)
     yield from undeclared_family(3, spaces.U(3, 0, 4), [{'rule': 'mpls'}, {'rule': 'wigm-prf'}])
     yield from withdrawn_undeclared_family(3, spaces.U(3, 0, 3 if tier == 'quick' else 4), [{'rule': 'mpls'}])
-    yield from seats_ties(4, spaces.W(4, 2, 3, (1, 2)), seats=(2, 3), ties='id', cfgs=D)
+    yield from seats_ties(4, spaces.W(4, 2, 3, (1, 2)), seats=(2, 3), ties='id', cfgs=D + ZB)
+    yield from seats_ties(5, spaces.BPS(5), seats=(3, 4), ties='id', cfgs=[{'rule': 'cfer-batch'}, {'rule': 'wigm-prf-batch'}])
     yield from seats_ties(4, spaces.BU(4), seats=(1, 2, 3), ties='id', cfgs=D)
     yield from seats_ties(3, spaces.U(3, 5, 5), ties='id' if tier == 'quick' else 'idrev', cfgs=D)
     yield from repo_files(D + menus[::9], max_bytes=4000 if tier == 'quick' else 10 ** 7)
